@@ -1,9 +1,9 @@
 SPECIFICATION Spec
 CONSTANTS
   MaxLeaves = 2
-  Forms = {"bare", "dollar", "object"}
+  Forms = {"bare", "dollar"}
   Decs = {"none", "raise", "ignore"}
-  Kinds = {"cmd", "py"}
+  Kinds = {"py"}
   Deviations = {}
 PROPERTY RunsIffReached
 PROPERTY NothingAfterRaise
